@@ -27,6 +27,8 @@ type Servers struct {
 	// Durable counts the durable writes each node has started so far; crashArmed holds pending crash orders.
 	Durable    map[uint64]int
 	crashArmed map[uint64]crashSpec
+	// Opposite: transitions run under the opposite of the default schedule (see oppositePick).
+	Opposite bool
 	// Deaf members lose the appends and snapshots addressed to them (they lag behind; heartbeats and votes still arrive).
 	Deaf map[uint64]bool
 	// FailSend, when set, decides that the RPC carrying a raft message fails at the sender.
@@ -103,7 +105,11 @@ func (w *Servers) Close() {
 // Quiesce runs the default schedule until nothing is enabled; panics / Fatal inside a node are
 // recorded and crash that node.
 func (w *Servers) Quiesce() {
-	r := w.S.Run(defaultPick{}, nil)
+	var strat vrt.Strategy = defaultPick{}
+	if w.Opposite {
+		strat = oppositePick{}
+	}
+	r := w.S.Run(strat, nil)
 	if t := w.S.Panicked(); t != nil {
 		id := nodeOf(t.Name)
 		w.violate("panic:"+panicSite(t.Stack), "thread %s panicked: %v\n%s", t.Name, t.Panic, trim(t.Stack))
